@@ -43,8 +43,18 @@ fn first_difference(a: &BTreeMap<String, FsItem>, b: &BTreeMap<String, FsItem>) 
     b.keys().find(|k| !a.contains_key(*k)).map(|k| format!("{k} exists only in the second archive"))
 }
 
+/// An operation on a replica: its own runtime flavour and, for every second history, trace-level
+/// diagnostics switched on (which the first copy never has).
+fn replica<T>(traced: bool, workers: usize, f: impl FnOnce() -> T) -> T {
+    cs::with_trace(traced, || cs::with_workers(workers, f))
+}
+
 fn one_history(run: &Run, case: u64) {
     let mut rng = Rng::for_case(run.seed, case, 22);
+    let traced = case % 2 == 1;
+    if traced {
+        run.count("histories_whose_replicas_run_with_trace_diagnostics_on", 1);
+    }
     let block = *rng.pick(&[7usize, 64, 1000]);
     let cap = *rng.pick(&[0u64, 10, 64]);
     let mut p = GenParams::small(block, cap);
@@ -120,7 +130,7 @@ fn one_history(run: &Run, case: u64) {
                 let moved = r.desc.contains("[first version moved");
                 for (arch, workers) in &replicas {
                     let ic = Icept::with_jitter(arch, Mode::Jitter, rng.next_u64());
-                    let out = cs::with_workers(*workers, || cs::backup(ic.transport(1), &w.src, *o, &[], None));
+                    let out = replica(traced, *workers, || cs::backup(ic.transport(1), &w.src, *o, &[], None));
                     if moved {
                         // the world fast-forwarded its band numbering: do the same here
                         std::fs::rename(arch.join(fmt06::band_dirname(0)), arch.join(fmt06::band_dirname(w.first_band))).expect("rename band");
@@ -145,9 +155,29 @@ fn one_history(run: &Run, case: u64) {
                 w.steps_done += 1;
                 for (arch, workers) in &replicas {
                     let ic = Icept::with_jitter(arch, Mode::CrashAtWrite { nth: *nth }, rng.next_u64());
-                    let _ = cs::with_workers(*workers, || cs::backup(ic.transport(1), &w.src, *o, &[], None));
+                    let _ = replica(traced, *workers, || cs::backup(ic.transport(1), &w.src, *o, &[], None));
                 }
                 run.count("killed_backups_replayed", 1);
+                // every second time the version just left behind also gets one of its index
+                // hunks overwritten with garbage, identically in every copy: whatever the next
+                // operations make of an unreadable hunk, they make the same of it everywhere
+                let raw = w.raw(false);
+                if let Some((id, b)) = raw.bands.iter().next_back() {
+                    if !b.complete() && !b.hunks.is_empty() && rng.chance(1, 2) {
+                        let ns: Vec<u32> = b.hunks.keys().copied().collect();
+                        let n = *rng.pick(&ns);
+                        let rel = format!("{}/{}", fmt06::band_dirname(*id), fmt06::hunk_relpath(n));
+                        let junk: Vec<u8> = (0..40).map(|_| rng.below(256) as u8).collect();
+                        let mut all = true;
+                        for a in std::iter::once(&w.arch).chain(replicas.iter().map(|r| &r.0)) {
+                            all &= a.join(&rel).is_file() && std::fs::write(a.join(&rel), &junk).is_ok();
+                        }
+                        if all {
+                            descs.push(format!("{rel} overwritten with garbage in every copy"));
+                            run.count("unreadable_hunks_planted_in_every_copy", 1);
+                        }
+                    }
+                }
             }
             OpK::DeleteWithFailingRemove(ids, victim) => {
                 desc = format!("delete {ids:?} while remove_file {} fails", &victim[..victim.len().min(20)]);
@@ -162,7 +192,7 @@ fn one_history(run: &Run, case: u64) {
                 w.steps_done += 1;
                 for (arch, workers) in &replicas {
                     let ic = Icept::with_jitter(arch, mode(), rng.next_u64());
-                    let o2 = cs::with_workers(*workers, || cs::delete(ic.transport(2), arch, ids, false, false));
+                    let o2 = replica(traced, *workers, || cs::delete(ic.transport(2), arch, ids, false, false));
                     if o2.ok() != out.ok() {
                         run.violation("replica-outcome-differs", format!("{desc}: first {}, replica {}", out.describe(), o2.describe()), json!({"case": case, "step": step, "history": descs}));
                         return;
@@ -176,7 +206,7 @@ fn one_history(run: &Run, case: u64) {
                 let ok = r.delete.as_ref().map(|b| b.ok()).unwrap_or(false);
                 for (arch, workers) in &replicas {
                     let ic = Icept::with_jitter(arch, Mode::Jitter, rng.next_u64());
-                    let out = cs::with_workers(*workers, || cs::delete(ic.transport(2), arch, ids, false, false));
+                    let out = replica(traced, *workers, || cs::delete(ic.transport(2), arch, ids, false, false));
                     if out.ok() != ok {
                         run.violation("replica-outcome-differs", format!("{desc}: first {ok}, replica {}", out.describe()), json!({"case": case, "step": step, "history": descs}));
                         return;
@@ -370,6 +400,7 @@ fn slow_storage(run: &Run, tier: Tier) {
 }
 
 pub fn run(tier: Tier, replay: Option<Value>) -> i32 {
+    cs::install_trace_sink();
     let run = Run::new("C17", "exploration", tier, replay.clone());
     if replay.as_ref().and_then(|r| r.get("many_hunks")).is_some() {
         many_hunks(&run);
@@ -388,10 +419,11 @@ pub fn run(tier: Tier, replay: Option<Value>) -> i32 {
     } else {
         run.par_cases(tier.pick(100, 4000), super::threads().min(8), |c| one_history(&run, c));
     }
+    run.count("trace_events_taken_by_the_sink", cs::TRACE_EVENTS.load(std::sync::atomic::Ordering::Relaxed));
     run.finish(
-        "histories over {tree mutations, backup(random options), backup killed before its n-th write, delete of a random subset (sometimes with the removal of one particular garbage block failing, a fault addressed by path), gc} are executed in lock-step from the same on-disk source states into a first archive (current-thread tokio runtime) and into one (thorough: two) replica archives on multi-thread runtimes with 2 or 8 workers and random yields/sleeps before every storage operation; after every step the complete directory trees must be byte-identical, BANDHEAD/BANDTAIL compared as JSON without start_time/end_time. Within one process every HashMap instance already gets its own random seed, so hash-order dependence shows up without a second process. One history (backup, change, backup, gc) on a 10 040-file tree with one entry per hunk is replayed the same way. One tree with a file stamped 2 s ahead of the clock is backed up twice before and twice after the clock passes that mtime (the wall clock is not an input). One tree is backed up on ordinary storage and on storage whose first block write stalls for 1.2 s (quick) / 31 s (thorough): how long storage takes is not an input either; a third copy is made on a runtime with a virtual clock, where that write takes two hours of the program's timer time. Distinct = history text with >= 3 archive operations.",
+        "in every second history the replicas run with trace-level diagnostics switched on (a tracing subscriber that takes every event on the replicas' threads and discards it; the first copy never has one), and after every second killed backup one index hunk of the version it left is overwritten with the same garbage in every copy; histories over {tree mutations, backup(random options), backup killed before its n-th write, delete of a random subset (sometimes with the removal of one particular garbage block failing, a fault addressed by path), gc} are executed in lock-step from the same on-disk source states into a first archive (current-thread tokio runtime) and into one (thorough: two) replica archives on multi-thread runtimes with 2 or 8 workers and random yields/sleeps before every storage operation; after every step the complete directory trees must be byte-identical, BANDHEAD/BANDTAIL compared as JSON without start_time/end_time. Within one process every HashMap instance already gets its own random seed, so hash-order dependence shows up without a second process. One history (backup, change, backup, gc) on a 10 040-file tree with one entry per hunk is replayed the same way. One tree with a file stamped 2 s ahead of the clock is backed up twice before and twice after the clock passes that mtime (the wall clock is not an input). One tree is backed up on ordinary storage and on storage whose first block write stalls for 1.2 s (quick) / 31 s (thorough): how long storage takes is not an input either; a third copy is made on a runtime with a virtual clock, where that write takes two hours of the program's timer time. Distinct = history text with >= 3 archive operations.",
         &["timestamps in heads and tails are the only allowed difference", "a separate-process replay was not added (per-instance hash seeds make it redundant)"],
         None,
-        &[("archive_pairs_compared", 100), ("killed_backups_replayed", 3), ("histories_completed", 10), ("many_hunks_replays_compared", 1), ("replays_straddling_a_file_mtime", 1), ("replays_with_a_stalled_storage_operation", 1), ("replays_with_a_storage_operation_taking_hours_of_virtual_time", 1)],
+        &[("archive_pairs_compared", 100), ("killed_backups_replayed", 3), ("histories_completed", 10), ("trace_events_taken_by_the_sink", 100), ("unreadable_hunks_planted_in_every_copy", 1), ("many_hunks_replays_compared", 1), ("replays_straddling_a_file_mtime", 1), ("replays_with_a_stalled_storage_operation", 1), ("replays_with_a_storage_operation_taking_hours_of_virtual_time", 1)],
     )
 }
